@@ -131,6 +131,7 @@ PROPERTY_ASSUMPTIONS["C05"] = [
 ]
 M("C05", "c05_longest_chain_rule", ["saito_core::core::consensus::blockchain::Blockchain::is_new_chain_the_longest_chain"],
   "new segment 1..=3 blocks x old segment 0..=3 blocks (thorough: up to 4), every id / burn fee / latest id; answer compared with the u128 reference rule")
+M("C05", "c05_validate_gt_gate", ["Blockchain::validate (async body; wind_chain / unwind_chain inlined)"], "segments (|new|,|old|) in {(1,0),(2,1),(3,1)}; the check's answer and every block's validity free", covers=3)
 M("C05", "c05_gt_window", ["saito_core::core::consensus::blockchain::is_golden_ticket_count_valid_"],
   "ancestor chains of depth 0..=6 with every golden-ticket flag pattern, current-block flag and bypass symbolic")
 
@@ -160,6 +161,7 @@ PROPERTY_ASSUMPTIONS["C06"] = [
 ]
 M("C06", "c06_validate_sig_gate", [BVX], "every path of the body returning true; verify_signature's verdict free")
 M("C06", "c06_validate_root_gate", [BVX], "every path returning true; generate_merkle_root's result and self.merkle_root free 32-byte values")
+M("C06", "c06_merkle_commits_every_tx", ["saito_core::core::consensus::merkle::MerkleTree::generate (leaf construction)"], "blocks of 1..=3 transactions, txs_replacements any value 0..=3 per transaction (4^n patterns), hashes symbolic", covers=3)
 M("C06", "c06_validate_txs_gate", [BVX], "every path returning true; the transaction sweep's verdict free")
 PROPERTY_ASSUMPTIONS["C08"] += ["gates: all paths of Block::validate with free callee results (same exploration and path selection as C06)"]
 M("C08", "c08_block_work_gate", [BVX, "BurnFee::return_routing_work_needed_to_produce_block_in_nolan (uninterpreted)"], "every path returning true with a known non-ghost parent; total_work and the requirement free u64")
@@ -168,6 +170,8 @@ PROPERTY_ASSUMPTIONS["C13"] = [
     "engine M gates only: the validator requires the block's rebroadcast commitment to equal the recomputed one, and the in-block double-spend scan treats ATR transactions like any other spender. Which outputs are selected for rebroadcast, their amounts, 'exactly once' and expiry over histories are outside the claim",
 ]
 M("C13", "c13_validate_rebroadcast_gate", [BVX], "every path returning true with validate_against_utxo = true; both commitments free values")
+M("C13", "c13_generate_commits_every_atr", ["saito_core::core::consensus::block::Block::generate (second sweep)"], "blocks of 1..=2 transactions with 2 outputs each, every transaction type and output slip type symbolic", covers=2)
+M("C01", "c01_generate_commits_every_atr", ["saito_core::core::consensus::block::Block::generate (second sweep)"], "same as c13_generate_commits_every_atr: the privileged ATR type cannot bypass the commitment", covers=2)
 M("C13", "c13_atr_inputs_recorded", [CLO], "ATR-typed transactions with 1..=2 inputs, one arbitrary key already recorded for the block")
 
 # ============================================================================== C04 (and the composition half of C03)
